@@ -149,6 +149,20 @@ pub fn part_b(check: &Check, args: &Args) {
         let ids: Vec<PeerId> = (0..=n).map(|i| net.peer(i)).collect();
         let node_of: HashMap<PeerId, usize> = ids.iter().enumerate().map(|(i, p)| (*p, i)).collect();
         let stranger = util::peer(900 + case_idx % 7);
+        // rare configuration: the server also knows some clients as AutoNAT *servers* of its own, under an address
+        // with a different IP (routable, so a dial to it is visible in the transport log); such stored addresses
+        // never went through the dial-back filter and must not be dialed on behalf of a request
+        let mut stored_foreign = 0u64;
+        for i in 1..=n {
+            if rng.chance(1, 3) {
+                let foreign: Multiaddr = Multiaddr::empty().with(Protocol::Ip4(Ipv4Addr::new(198, 51, 100, 200 + i as u8))).with(Protocol::Tcp(4001));
+                net.board.alias(&foreign, &client_addr(i, 4001));
+                if let Either::Left(b) = net.swarm(0).behaviour_mut() {
+                    b.add_server(ids[i], Some(foreign));
+                }
+                stored_foreign += 1;
+            }
+        }
 
         // event fold state
         let mut events: Vec<String> = vec![];
@@ -338,6 +352,7 @@ pub fn part_b(check: &Check, args: &Args) {
         check.count("B_requests_refused", refused);
         check.count("B_dial_backs_succeeded", responses_ok);
         check.count("B_server_transport_dials", server_dials);
+        check.count("B_clients_also_stored_as_server_with_foreign_ip", stored_foreign);
         check.count("B_histories_with_overlapping_pending_dial_backs", (max_concurrent_pending > 1) as u64);
         for (k, v) in &statuses {
             check.count(&format!("B_response_status_{k}"), *v);
